@@ -633,6 +633,49 @@ fn main() {
             if j % 2 == 0 { run_gcd(&mut log, &a, &b, "lehmer") } else { run_gcd(&mut log, &b, &a, "lehmer") }
         }
     }
+    // --cf K: K gcd cases built from a continued fraction [q1; q2, ...] whose convergent denominators (the cofactors the
+    // extended gcd tracks) cross a word boundary at a partial quotient q_i that is immediately followed by a HUGE partial
+    // quotient (the next remainder is below the operands' top word): there the top-word guess of the Lehmer loop sees a
+    // ratio that is an integer up to its truncation error, the place where a guessed quotient can be one too small
+    // (GcdExtAlg: the cofactor of the larger remainder is then the LONGER one, which the Euclidean update does not expect)
+    if let Some(i) = args.extra.iter().position(|a| a == "--cf") {
+        let k: u64 = args.extra[i + 1].parse().unwrap();
+        for j in 0..k {
+            let boundary = UBig::ONE << (64 * (1 + rng.below(3) as usize));
+            let mut qs: Vec<UBig> = Vec::new();
+            let (mut t0, mut t1) = (UBig::ZERO, UBig::ONE);
+            loop {
+                let z = rng.next();
+                let q = UBig::from(1 + (z % 8) * ((z >> 8) % 3) / 2 + (if z >> 60 == 0 { (z >> 20) % 5000 } else { 0 }));
+                let t2 = &t0 + &q * &t1;
+                if t2 >= boundary {
+                    // t0 + (q_i - 1) t1 >= boundary > t1
+                    qs.push((&boundary - &t0 + &t1 - UBig::ONE) / &t1 + UBig::ONE + UBig::from(rng.below(3)));
+                    break;
+                }
+                qs.push(q);
+                t0 = t1;
+                t1 = t2;
+            }
+            qs.push((UBig::ONE << (56 + rng.below(20) as usize)) + UBig::from(rng.next()));
+            for _ in 0..rng.below(6) {
+                qs.push(UBig::from(1 + rng.below(9)));
+            }
+            qs.push(UBig::from(2 + rng.below(9)));
+            let (mut a, mut b) = (UBig::ONE, UBig::ZERO);
+            for q in qs.iter().rev() {
+                let na = q * &a + &b;
+                b = a;
+                a = na;
+            }
+            let g = UBig::from(1 + rng.below(3));
+            let (mut a, b) = (IBig::from(a * &g), IBig::from(b * &g));
+            if j % 5 == 4 {
+                a = -a;
+            }
+            if j % 2 == 0 { run_gcd(&mut log, &a, &b, "cf") } else { run_gcd(&mut log, &b, &a, "cf") }
+        }
+    }
     let n = log.finish();
     eprintln!("c12[{}]: {} events", BUILD, n);
 }
